@@ -827,6 +827,54 @@ Proof.
   rewrite IH by (intros l' j' Hin; apply Hj; right; exact Hin). reflexivity.
 Qed.
 
+(* ---------- the int() hypothesis of the round-trip theorems is met by the ASCII model of int() ---------- *)
+Lemma int_digits_all : forall ds acc prev, forallb is_digit ds = true -> (ds <> [] \/ prev = true) ->
+  int_digits acc prev ds = Some (fold_left (fun a c => (10 * a + Z.of_N (c - 48))%Z) ds acc).
+Proof.
+  induction ds as [|c ds IH]; intros acc prev H Hne; cbn [int_digits fold_left].
+  - destruct Hne as [Hne|Hp]; [contradiction | rewrite Hp; reflexivity].
+  - cbn [forallb] in H. apply andb_true_iff in H. destruct H as [Hc Hds]. rewrite Hc.
+    apply IH; [exact Hds | right; reflexivity].
+Qed.
+
+Lemma digit_not_cspace : forall c, is_digit c = true -> is_cspace c = false.
+Proof. intros c H. unfold is_digit in H. unfold is_cspace. lia. Qed.
+
+Lemma lstrip_c_digit : forall c s, is_digit c = true -> lstrip_c (c :: s) = c :: s.
+Proof. intros c s H. cbn [lstrip_c]. rewrite (digit_not_cspace c H). reflexivity. Qed.
+
+Lemma strip_c_digits : forall ds, forallb is_digit ds = true -> strip_c ds = ds.
+Proof.
+  intros ds H. unfold strip_c. destruct ds as [|c ds]; [reflexivity|].
+  cbn [forallb] in H. apply andb_true_iff in H. destruct H as [Hc Hds].
+  rewrite (lstrip_c_digit c ds Hc).
+  assert (Hrev : forallb is_digit (rev (c :: ds)) = true).
+  { apply forallb_forall. intros x Hx. apply in_rev in Hx. destruct Hx as [E|Hx]; [subst x; exact Hc|].
+    rewrite forallb_forall in Hds. apply Hds. exact Hx. }
+  destruct (rev (c :: ds)) as [|c' r'] eqn:E.
+  - apply (f_equal (@rev N)) in E. rewrite rev_involutive in E. discriminate.
+  - cbn [forallb] in Hrev. apply andb_true_iff in Hrev. destruct Hrev as [Hc' _].
+    rewrite (lstrip_c_digit c' r' Hc'). rewrite <- E. apply rev_involutive.
+Qed.
+
+Theorem py_int_ascii_digits : forall ds, ds <> [] -> forallb is_digit ds = true ->
+  py_int_ascii ds = Some (digits_val ds).
+Proof.
+  intros ds Hne H. unfold py_int_ascii. rewrite (strip_c_digits ds H).
+  destruct ds as [|c ds]; [contradiction|].
+  assert (Hc : is_digit c = true) by (cbn [forallb] in H; apply andb_true_iff in H; apply H).
+  assert (E43 : (c =? 43) = false) by (unfold is_digit in Hc; lia).
+  assert (E45 : (c =? 45) = false) by (unfold is_digit in Hc; lia).
+  rewrite E43, E45. apply int_digits_all; [exact H | left; discriminate].
+Qed.
+
+Example py_int_ascii_examples :
+  py_int_ascii [49; 95; 48] = Some 10%Z /\ py_int_ascii [43; 53; 32] = Some 5%Z /\ py_int_ascii [32; 45; 51; 9] = Some (-3)%Z /\
+  py_int_ascii [49; 95; 95; 48] = None /\ py_int_ascii [95; 49] = None /\ py_int_ascii [49; 95] = None /\
+  py_int_ascii [43; 32; 53] = None /\ py_int_ascii [45; 45; 53] = None /\ py_int_ascii [43] = None /\ py_int_ascii [] = None /\
+  py_int_ascii [53; 31] = None /\ py_int_ascii [48; 120; 49; 48] = None /\ py_int_ascii [48; 48; 49; 50] = Some 12%Z.
+Proof. repeat split; reflexivity. Qed.
+
 (* ---------- non-vacuity ---------- *)
 Definition bs_ok : list block :=
   [[IComment [32; 104; 105]; IEvent [109; 115; 103]; IData [104; 233; 108; 108; 111]; IData []; IData [8364; 58; 32; 120];
